@@ -11,6 +11,7 @@
 //!  * `bash`     — real bash through `StatefulExecutor(BashRunner)` and `BashScriptExecutor`; payload
 //!                 programs that write prescribed bytes and exit with a prescribed code
 //!  * `unmodelled big|strip` — megabytes on both streams at once, ANSI stripping: direct oracle only
+//!  * `unmodelled ifs` — a test case that sets IFS: exit codes / streams of it and of the next one vs one plain bash session
 //!
 //! Every case is a function of its op line (so `--replay <op>` re-evaluates it).
 use crate::common::*;
@@ -456,13 +457,20 @@ fn eval_compile(env: &Env, _op: &str, f: &[&str]) -> CaseRec {
             want.push('\n');
         }
         want.push_str(e);
-        want.push_str(&format!("\n\necho \"~~~~~~~~EXECDIVIDER::{salt}::{i}::$?\""));
+        // the exit code is taken by a command of its own; the dividers expand the variable, not `$?`
+        want.push_str(&format!("\n\n__SCRUT_EXIT_CODE=$?\necho \"~~~~~~~~EXECDIVIDER::{salt}::{i}::$__SCRUT_EXIT_CODE\""));
         if !combined {
-            want.push_str(&format!("\n1>&2 echo \"~~~~~~~~EXECDIVIDER::{salt}::{i}::$?\""));
+            want.push_str(&format!("\n1>&2 echo \"~~~~~~~~EXECDIVIDER::{salt}::{i}::$__SCRUT_EXIT_CODE\""));
         }
+        want.push_str("\nunset __SCRUT_EXIT_CODE");
     }
     if script != want {
-        fails.push(("C13:script-verbatim".to_string(), "the compiled script is not the expressions verbatim, each followed by an empty line and its divider echo".to_string()));
+        fails.push(("C13:script-verbatim".to_string(), "the compiled script is not the expressions verbatim, each followed by an empty line, `__SCRUT_EXIT_CODE=$?`, its divider echo(s) and `unset __SCRUT_EXIT_CODE`".to_string()));
+    }
+    // the property behind the layout, checked on the text alone: a divider echo that expands `$?` reads the status of
+    // whatever stands in front of it -- its own `echo` when an expression ends in `|`
+    if script.lines().any(|l| l.contains("EXECDIVIDER::") && (l.starts_with("echo \"") || l.starts_with("1>&2 echo \"")) && l.ends_with("$?\"") && l.contains(&format!("::{salt}::"))) {
+        fails.push(("C13:divider-reads-status-itself".to_string(), "a divider echo line of the compiled script expands `$?` itself: an expression that ends in `|` makes it part of the user's pipeline and it reports 0".to_string()));
     }
     let op = format!("compile {} {} {} {}", f[1], thex(&salt), f[3], f[4]);
     let has = exprs.iter().any(|e| PLACEHOLDERS.iter().any(|p| e.contains(p)) || e.contains("EXECDIVIDER"));
@@ -759,6 +767,54 @@ fn eval_shellopt(op: &str, f: &[&str]) -> CaseRec {
     CaseRec { op: op.to_string(), impl_out: "unmodelled".into(), oracle_fail: fails, nontrivial: true, tags: vec![format!("shellopt:mode={mode}"), format!("shellopt:{opt}")] }
 }
 
+/// `unmodelled ifs <mode> <hex expression>`: the test case changes `IFS` (or another piece of shell state that steers
+/// word splitting) and ends with a given status; the recorded exit code, stdout and stderr of it and of the NEXT test
+/// case (which inherits the state) must be what ONE plain bash session gives for the same commands -- scrut's own
+/// wrapper must not let the user's `IFS` split the exit code it passes on (`exit $code` unquoted: `IFS=0; (exit 10)`
+/// was recorded as 1, `IFS=0; true` as 2 with a line of bash on stderr)
+fn eval_ifs(op: &str, f: &[&str]) -> CaseRec {
+    let mode = f[2];
+    let expr = String::from_utf8_lossy(&unhex(f[3])).to_string();
+    let exprs = [expr.clone(), "echo next; (exit 4)".to_string()];
+    let dir = case_dir();
+    let tcs: Vec<TestCase> = exprs.iter().map(|e| testcase(e, script_config(false, None, 80))).collect();
+    let res = run_real(mode, &tcs, dir.path());
+    // reference: one session, each command's streams into files of their own, the status expanded inside quotes
+    let refdir = case_dir();
+    let mut script = String::new();
+    for (i, e) in exprs.iter().enumerate() {
+        script.push_str(&format!("{{ {e}\n}} >{d}/o{i} 2>{d}/e{i}\nbuiltin echo \"$?\" >{d}/c{i}\n", d = refdir.path().display()));
+    }
+    let _ = std::process::Command::new(BASH).arg("-c").arg(&script).current_dir(refdir.path()).stdin(std::process::Stdio::null()).stdout(std::process::Stdio::null()).stderr(std::process::Stdio::null()).status();
+    let rd = |n: String| std::fs::read(refdir.path().join(n)).unwrap_or_default();
+    let mut fails = vec![];
+    let touches_ifs = expr.contains("IFS");
+    let code_class = if touches_ifs { "C13:exit-code-split-by-ifs" } else { "C13:exit-code" };
+    match &res {
+        Ok(Ok(outs)) if outs.len() == 2 => {
+            for i in 0..2 {
+                let want_code: Option<i32> = String::from_utf8_lossy(&rd(format!("c{i}"))).trim().parse().ok();
+                let (wo, we) = (rd(format!("o{i}")), rd(format!("e{i}")));
+                let so: Vec<u8> = (&outs[i].stdout).into();
+                let se: Vec<u8> = (&outs[i].stderr).into();
+                if want_code.is_none() {
+                    fails.push(("C13:crash".to_string(), format!("`{expr}`: the reference session gave no status for test {i}")));
+                } else if Some(outs[i].exit_code.clone()) != want_code.map(ExitStatus::Code) {
+                    fails.push((code_class.to_string(), format!("test cases {exprs:?} (mode {mode}): test {i} recorded exit code {:?}, one bash session gives {}", outs[i].exit_code, want_code.unwrap())));
+                }
+                if so != wo {
+                    fails.push(("C13:stdout-bytes".to_string(), format!("test cases {exprs:?} (mode {mode}): test {i} recorded stdout {:?}, one session writes {:?}", String::from_utf8_lossy(&so), String::from_utf8_lossy(&wo))));
+                }
+                if se != we {
+                    fails.push((if touches_ifs { code_class.to_string() } else { "C13:stderr-bytes".to_string() }, format!("test cases {exprs:?} (mode {mode}): test {i} recorded stderr {:?}, one session writes {:?}", String::from_utf8_lossy(&se).chars().take(200).collect::<String>(), String::from_utf8_lossy(&we))));
+                }
+            }
+        }
+        other => fails.push((code_class.to_string(), format!("test cases {exprs:?} (mode {mode}): {}", show_result(other).chars().take(200).collect::<String>()))),
+    }
+    CaseRec { op: op.to_string(), impl_out: "unmodelled".into(), oracle_fail: fails, nontrivial: true, tags: vec![format!("ifs:mode={mode}"), format!("ifs:{expr}")] }
+}
+
 fn eval_op(env: &Env, op: &str) -> CaseRec {
     let f: Vec<&str> = op.split(' ').collect();
     let r = std::panic::catch_unwind(std::panic::AssertUnwindSafe(|| match (f[0], f.len()) {
@@ -774,6 +830,7 @@ fn eval_op(env: &Env, op: &str) -> CaseRec {
         ("unmodelled", 8) if f[1] == "big" => eval_big(op, &f),
         ("unmodelled", 5) if f[1] == "strip" => eval_strip(op, &f),
         ("unmodelled", 4) if f[1] == "shellopt" => eval_shellopt(op, &f),
+        ("unmodelled", 4) if f[1] == "ifs" => eval_ifs(op, &f),
         _ => bad(op),
     }));
     r.unwrap_or_else(|_| bad(op))
@@ -1038,7 +1095,9 @@ pub fn run(ctx: &Ctx, prop: &str) {
 
     // 5. the compiled script through a capture shell
     {
-        let mut toks: Vec<String> = vec!["echo a".into(), "\n".into(), "".into(), "$?".into(), "~~~~~~~~EXECDIVIDER::X::0::0".into(), "echo \"q\" 'r'".into(), " ".into(), "\u{e9}".into(), "exit 3".into()];
+        let mut toks: Vec<String> = vec!["echo a".into(), "\n".into(), "".into(), "$?".into(), "~~~~~~~~EXECDIVIDER::X::0::0".into(), "echo \"q\" 'r'".into(), " ".into(), "\u{e9}".into(), "exit 3".into(),
+            // expressions that bash continues over the footer
+            " |".into(), " |&".into(), " &&".into(), " ||".into(), " \\".into(), "echo 'open".into(), "__SCRUT_EXIT_CODE=9".into()];
         toks.extend(PLACEHOLDERS.iter().map(|s| s.to_string()));
         par_stream(ctx, "compile-capture", if thorough { 3000 } else { 200 }, false, |idx| {
             let mut r = Rng::fork(seed, 6, idx);
@@ -1133,6 +1192,12 @@ pub fn run(ctx: &Ctx, prop: &str) {
         par_stream(ctx, "bash-shell-trace-exhaustive", (sopts.len() * 2) as u64, true, |idx| {
             let i = idx as usize;
             Some(eval_op(&env, &format!("unmodelled shellopt {} {}", if i % 2 == 0 { "p" } else { "s" }, hex(sopts[i / 2].as_bytes()))))
+        });
+        // the user's IFS (and friends) must not reach the exit code scrut's wrapper passes on; controls without IFS
+        let ifs = ["IFS=0; (exit 10)", "IFS=0; true", "IFS=1; (exit 10)", "IFS=$'\\n'; (exit 3)", "IFS=0; (exit 100)", "IFS=5; (exit 255)", "IFS=; (exit 12)", "IFS=01234; echo out; echo err >&2; (exit 203)", "IFS=0; false", "unset IFS; (exit 10)", "(exit 10)", "set -f; IFS=1; (exit 111)"];
+        par_stream(ctx, "bash-exit-code-vs-ifs-exhaustive", (ifs.len() * 2) as u64, true, |idx| {
+            let i = idx as usize;
+            Some(eval_op(&env, &format!("unmodelled ifs {} {}", if i % 2 == 0 { "p" } else { "s" }, hex(ifs[i / 2].as_bytes()))))
         });
         let ansi: Vec<Vec<u8>> = vec![
             b"x\x1b[1mbold\x1b[0m\n".to_vec(),
